@@ -897,6 +897,9 @@ class Verifier(InspectMixin, QuantMixin, LoopMixin, ExprMixin, CallMixin, StmtMi
                 self.set_seq(xs, S)
                 env2 = dict(env, xs=xs)
                 self.oblige('comprehension', f'{where}: {cl.name}', self.clause_holds(cl, self.pick_env(cl, env2)), props(cl))
+            if gen.ifs and not kinds.get('keeps'):
+                self.oblige('comprehension', f'{where}: the contract describes an unfiltered comprehension, the code filters',
+                            z3.BoolVal(False), ct.props)
             if not (kinds.get('keeps') or kinds.get('element')):
                 continue
             istar = self.fresh('gi', smt.I)
